@@ -890,6 +890,9 @@ def run_scan(seed, tier, scan=None):
         ref = _in_child(child_reference, base)
         ref_other = None
         for a, (strat, s, pre) in enumerate(directed_prefixes(events, rng, scan['config']['scan']['max_attempts'])):
+            if _late():
+                stats['scan.cut_short_by_deadline'] = 1
+                break
             use_other = strat == 'S1' and a % 3 == 2
             if use_other and ref_other is None:
                 ref_other = _in_child(child_reference, other)
@@ -1014,6 +1017,8 @@ def run_seed(seed, tier):
     ref = _in_child(child_reference, plan)
     total = None
     for a in range(attempts):
+        if a and _late():
+            break
         p = copy.deepcopy(plan)
         p['config']['attempt'] = a
         res = evaluate(p, True, seed * 131 + a, reference=ref)
@@ -1131,8 +1136,16 @@ def shrink(plan, sig, budget_runs=150, budget_s=120):
 # ---------------------------------------------------------------------------
 # batch / check
 # ---------------------------------------------------------------------------
+_DEADLINE = [None]
+
+
+def _late():
+    return _DEADLINE[0] is not None and time.time() > _DEADLINE[0]
+
+
 def _worker(args):
     tier, seeds, deadline = args
+    _DEADLINE[0] = deadline + 10
     import faulthandler
     faulthandler.dump_traceback_later(550, exit=True)
     out = {'runs': 0, 'digests': {}, 'violations': [], 'harness': [], 'steps': 0, 'switches': 0,
